@@ -20,7 +20,7 @@ LEVEL = "model_checking"
 RULE = (
     "operand sets {crossing polygons int and float, nested pair both ways, hollow vs covering polygon, two components vs "
     "square, hollow vs square (inverting containment path), Empty/Whole vs square both ways, circle vs float polygon, "
-    "circle vs circle; thorough: all PC x PC}; histories: event 1 in {A|B, A&B, A-B, B-A, A^B, ~A, -A, A+B, A*B, "
+    "circle vs circle, four pairs of FAR-APART operands (disjoint boxes: bounded, both unbounded, hollow, curved); thorough: all PC x PC}; histories: event 1 in {A|B, A&B, A-B, B-A, A^B, ~A, -A, A+B, A*B, "
     "copy(A), deepcopy(A), SimpleShape(A.jordans[0]), A==B, B in A, J in A, p in A, float(A), integrals, box, str, "
     "curve&curve, plot(A)} (thorough: two operations in a row), event 2 in {move, scale, rotate, invert} applied to each of "
     "{A, B, result}, event 3 = observation of all other objects. Invariant: operands' regions unchanged after event 1 "
@@ -51,6 +51,11 @@ OPERANDS = [
     ("circle-fsq", ["L", "Q.c8"], ["L", "Q.fsq"]),
     ("circle-circle", ["L", "Q.c16"], ["L", "Q.c16b"]),
     ("lens-ftri", ["L", "Q.lens"], ["L", "Q.ftri"]),
+    # operands far apart (disjoint boxes): nothing crosses, the result is made of whole operand curves
+    ("far-int", ["L", "P.sqA#int"], ["L", "P.far#int"]),
+    ("far-unbounded", ["L", "P.sqA#int@cw"], ["L", "P.far#int@cw"]),
+    ("far-hollow", ["PC", "hollow", "int"], ["L", "P.far#frac"]),
+    ("far-curved", ["L", "Q.c8"], ["L", "Q.c8far"]),
 ]
 
 OPS = ["A|B", "A&B", "A-B", "B-A", "A^B", "~A", "-A", "A+B", "A*B", "copy(A)", "deepcopy(A)", "Simple(A.j0)", "A==B", "B in A", "jB in A", "p in A", "float(A)", "integrals(A)", "box(A)", "str(A)", "jA & jB", "plot(A)", "~B", "copy(B)"]
